@@ -78,8 +78,10 @@ func c02Drain(it sql.RowIter) ([]int64, bool) {
 }
 
 func c02SetOp(tag string, except bool) {
-	nl := nd.IntRange(tag+".nl", 0, nd.Bound(3, 4))
-	nr := nd.IntRange(tag+".nr", 0, nd.Bound(3, 4))
+	// (measured: with 3 rows on both sides two of the final queries of EXCEPT ALL stay undecided at 90 s;
+	// 4 on both sides left 17 undecided)
+	nl := nd.IntRange(tag+".nl", 0, 3)
+	nr := nd.IntRange(tag+".nr", 0, nd.Bound(2, 3))
 	lrows, lv := c02Side(tag+".l", nl)
 	rrows, rv := c02Side(tag+".r", nr)
 	var it sql.RowIter
